@@ -27,7 +27,7 @@ ASSUMPTIONS = [
 ]
 
 KEYS = [f"k{i:02d}" for i in range(16)]
-OPS = ["put", "put", "put", "get", "get", "get", "del", "scan"]
+OPS = ["put", "put", "put", "get", "get", "scan", "del", "scan"]
 
 
 def _i(x, d=0):
@@ -64,7 +64,7 @@ def make_store(kind, cfg):
             wal = WriteAheadLog("wal", sync_policy=pol, write_latency=ticks(1 + g("ww") % 4) / 4,
                                 sync_latency=ticks(1 + g("ws") % 4) / 2)
         store = LSMTree("db", memtable_size=1 + g("mem") % 4, compaction_strategy=strat, wal=wal,
-                        sstable_read_latency=ticks(1 + g("rl") % 3) / 2, sstable_write_latency=ticks(1 + g("wl") % 8),
+                        sstable_read_latency=ticks(1 + g("rl") % 6) / 2, sstable_write_latency=ticks(1 + g("wl") % 8),
                         max_levels=2 + g("levels") % 3)
         return store, [store], sname + ("+wal" if wal else "")
     if kind == "btree":
@@ -92,7 +92,8 @@ def map_strategy(kind, overlap):
                           min_size=1, max_size=1)
         cfgkeys = {"lsm": ["strat", "p1", "p2", "mem", "levels", "wl", "rl", "wal", "ww", "ws"],
                    "btree": ["order", "rl", "wl"], "kv": ["rl", "wl", "dl"]}[kind]
-        cfg = st.fixed_dictionaries({k: st.integers(0, 11) for k in cfgkeys})
+        bias = {"mem": st.sampled_from([0, 0, 0, 1, 1, 2, 3]), "p1": st.sampled_from([0, 0, 0, 1, 2, 3, 4])} if kind == "lsm" else {}
+        cfg = st.fixed_dictionaries({k: bias.get(k, st.integers(0, 11)) for k in cfgkeys})
         return st.fixed_dictionaries({
             "cfg": cfg,
             "nkeys": st.integers({"lsm": 3, "btree": 4, "kv": 2}[kind], nk + 1),
@@ -123,9 +124,11 @@ def run_map_case(kind, case, stop_after=None):
             yield from store.put(key, rec.value)
             return None
         if kind == "lsm" and what in ("get", "scan"):
-            # memtables frozen but not yet installed as SSTable at the instant the read starts (read-only peek; both
-            # get and scan consult memtables only at their first step)
-            rec.ctx = list(store._immutable_memtables)
+            # classification aid only: (a) memtables frozen but not yet installed as SSTable at the instant the read starts
+            # (read-only peek; get and scan consult memtables only at their first step); (b) what the store's own synchronous
+            # read path returns at that instant for the keys concerned (get_sync touches statistics counters only)
+            ks = [key] if what == "get" else keys[k % nkeys:k % nkeys + 1 + aux % nkeys]
+            rec.ctx = (list(store._immutable_memtables), {x: store.get_sync(x) for x in ks})
         if what == "get":
             return (yield from store.get(key))
         if what == "del":
@@ -193,11 +196,15 @@ def map_execute(kind, obl):
                 # this key that the read was allowed to return
                 e = rec.end if rec.end is not None else float("inf")
                 okv = [w.value for w in orc.acceptable(key, rec)]
-                frozen = getattr(rec, "ctx", None) or []
+                frozen, snap = getattr(rec, "ctx", None) or ([], {})
                 fl = [s for s in spans if s.name == "flush" and any(s.aux[1] is m for m in frozen)
                       and key in s.aux[0] and s.aux[0][key] in okv]
                 if fl:
                     return "read-ignores-memtable-being-flushed"
+                # the synchronous read path gave an acceptable value when the read started, the suspended generator read
+                # ended up with another one: it followed the live level lists while a flush/compaction changed them
+                if key in snap and snap[key] in okv:
+                    return "suspended-read-follows-changing-levels"
                 # two compactions running at the same time (each works on a snapshot of the levels taken before its
                 # write latency) before the read ended
                 co = [s for s in spans if s.name == "compact" and s.end != s.start and s.start <= e]
@@ -539,7 +546,7 @@ OBLIGATIONS = [
     Obligation("lsm-seq", map_strategy("lsm", False), map_execute("lsm", "lsm-seq"), {"quick": 700, "thorough": 30000},
                _MAP_RULE + "one worker, up to 36 ops, LSMTree x {size-tiered, leveled, FIFO}, memtable 1-4, 2-4 levels, with/without WAL; "
                "non-trivial = at least one compaction, one delete and one read"),
-    Obligation("lsm-overlap", map_strategy("lsm", True), map_execute("lsm", "lsm-overlap"), {"quick": 1100, "thorough": 50000},
+    Obligation("lsm-overlap", map_strategy("lsm", True), map_execute("lsm", "lsm-overlap"), {"quick": 2200, "thorough": 60000},
                _MAP_RULE + "2-4 workers; non-trivial = a get/scan whose interval overlaps an observed flush or compaction interval"),
     Obligation("btree-seq", map_strategy("btree", False), map_execute("btree", "btree-seq"), {"quick": 500, "thorough": 20000},
                _MAP_RULE + "one worker on BTree order 3-5; non-trivial = a split happened, depth>=2 and a read followed"),
